@@ -1,2 +1,4 @@
 pub mod cal;
+pub mod ganzhi;
 pub mod lunar_seq;
+pub mod terms;
